@@ -159,6 +159,62 @@ impl IndexerService {
     }
 }
 
+/// verif hooks: the production sync loop run synchronously, explicit append / rollback with a
+/// chosen retention, and a raw dump of the index store.
+#[cfg(feature = "verif-hooks")]
+impl IndexerService {
+    fn verif_indexer(&self, keep_num: u64, prune_interval: u64) -> Indexer<RocksdbStore> {
+        Indexer::new(
+            self.store.clone(),
+            keep_num,
+            prune_interval,
+            self.sync.pool(),
+            CustomFilters::new(self.block_filter.as_deref(), self.cell_filter.as_deref()),
+        )
+    }
+
+    /// One pass of `IndexerSyncService::try_loop_sync` with the production indexer
+    pub fn verif_sync_once(&self) {
+        self.sync.verif_try_loop_sync(self.get_indexer())
+    }
+
+    /// The same with a chosen retention (`keep_num`) and prune interval
+    pub fn verif_sync_once_with(&self, keep_num: u64, prune_interval: u64) {
+        self.sync
+            .verif_try_loop_sync(self.verif_indexer(keep_num, prune_interval))
+    }
+
+    /// `IndexerSync::append`
+    pub fn verif_append(
+        &self,
+        block: &core::BlockView,
+        keep_num: u64,
+        prune_interval: u64,
+    ) -> Result<(), String> {
+        use ckb_indexer_sync::IndexerSync;
+        self.verif_indexer(keep_num, prune_interval)
+            .append(block)
+            .map_err(|e| e.to_string())
+    }
+
+    /// `IndexerSync::rollback`
+    pub fn verif_rollback(&self, keep_num: u64, prune_interval: u64) -> Result<(), String> {
+        use ckb_indexer_sync::IndexerSync;
+        self.verif_indexer(keep_num, prune_interval)
+            .rollback()
+            .map_err(|e| e.to_string())
+    }
+
+    /// Every key/value pair of the index store, in key order
+    pub fn verif_dump(&self) -> Vec<(Vec<u8>, Vec<u8>)> {
+        self.store
+            .iter([0u8], IteratorDirection::Forward)
+            .expect("iter")
+            .map(|(k, v)| (k.to_vec(), v.to_vec()))
+            .collect()
+    }
+}
+
 /// Handle to the indexer.
 ///
 /// The handle is internally reference-counted and can be freely cloned.
